@@ -57,6 +57,12 @@ class GenV:
         self.kwargs = kwargs
 
 
+class CtxGenV(GenV):
+    """What a ``@contextlib.contextmanager`` function returns: entered by
+    running the generator to its yield, the ``with`` body runs there (an
+    exception of the body is raised at the yield), the rest runs on exit."""
+
+
 class _PathCut(Exception):
     """The path was abandoned (loop bound)."""
 
@@ -546,7 +552,7 @@ class Interp:
                 self.frames.pop()
         if _is_generator(node) and self.on_yield is None:
             if getattr(f, 'is_ctxmgr', False):
-                return self.opaque_call(f.qualname, f, args, kwargs)
+                return CtxGenV(f, args, kwargs)
             return GenV(f, args, kwargs)
         fr = Frame(f, env, len(self.frames))
         self.frames.append(fr)
@@ -1056,10 +1062,30 @@ class Interp:
             return None
         return n
 
-    def st_With(self, s, fr):
+    def st_With(self, s, fr, first=0):
         mgrs = []
-        for item in s.items:
+        for n_item, item in enumerate(s.items[first:], first):
             m = self.eval(item.context_expr, fr)
+            if isinstance(m, CtxGenV):
+                if mgrs:
+                    raise Inexact('generator context manager after another '
+                                  'manager in one with statement')
+                state = {'entered': False}
+
+                def consume(v, item=item, n_item=n_item):
+                    if state['entered']:
+                        raise Inexact('context manager yields twice')
+                    state['entered'] = True
+                    if item.optional_vars is not None:
+                        self.assign(item.optional_vars, v, fr)
+                    if n_item + 1 < len(s.items):
+                        self.st_With(s, fr, first=n_item + 1)
+                    else:
+                        self.exec_block(s.body, fr)
+                self.run_generator(m, consume)
+                if not state['entered']:
+                    raise Inexact('generator context manager did not yield')
+                return
             entered = self.ctx_enter(m)
             if item.optional_vars is not None:
                 self.assign(item.optional_vars, entered, fr)
